@@ -6,12 +6,12 @@ import "strings"
 // Index 0 of every pool is the plainest name. Excluded as the properties say: '%', '.', '..', the
 // empty name, the double quote and the backslash; also "$ref" and "x-..." as names.
 var (
-	identNames   = []string{"pet", "Pet", "owner", "tag", "Tag", "thing"}
+	identNames   = []string{"pet", "Pet", "owner", "tag", "Tag", "thing", "PET"}
 	genLikeNames = []string{"petOwner", "PetOwner", "petOwnerOAIGen", "op0getOKBody", "op0getParamsBody", "petItems", "petAllOf1", "op0getDefaultBody"}
 	keywordNames = []string{"items", "properties", "schema", "default", "200", "0", "definitions", "allOf", "additionalProperties"}
 	spaceNames   = []string{"pet owner", "é", "日本", "Tag é"}
-	ptrNames     = []string{"a/b", "til~de", "~1", "x/~y", "pet/owner"}
-	urlNames     = []string{"q?x", "h#x", "br[0]", "cu{x}", "a&b=c", "a+b", "x y/z~w#?"}
+	ptrNames     = []string{"a/b", "til~de", "~1", "x/~y", "pet/owner", "~"}
+	urlNames     = []string{"q?x", "h#x", "br[0]", "cu{x}", "a&b=c", "a+b", "x y/z~w#?", "h#y", "?", "[]", "{}", "#"}
 )
 
 // NameClasses tells which escaping-relevant character classes a name contains.
